@@ -100,6 +100,15 @@ fn run_tree_paths<Tr: TreeApi>(rep: &mut Rep, spec: &SeqSpec, budget: usize) {
             neighbours.push(("maximum replaced by a larger symbol", v));
         }
     }
+    // two ADJACENT different elements swapped, as late in the sequence as possible and in the middle
+    // (block counters, sizes and symbol counts are all preserved: only the payload differs)
+    for (what, from) in [("adjacent pair swapped near the end", n), ("adjacent pair swapped in the second half", n / 2 + n / 4)] {
+        if let Some(j) = (1..from.min(n)).rev().find(|&j| raw[j] != raw[j - 1]) {
+            let mut v = data.clone();
+            v.swap(j, j - 1);
+            neighbours.push((what, v));
+        }
+    }
     // one element appended (a symbol of the alphabet)
     let mut v = data.clone();
     v.push(<Tr::Item as Sym>::from_u128(m.syms.first().copied().unwrap_or(0)));
@@ -188,12 +197,23 @@ fn run_quad_paths<Q: QuadApi>(rep: &mut Rep, spec: &QuadSpec, budget: usize) {
             neigh.push(("two symbols swapped", v));
         }
     }
+    for (what, from) in [("adjacent pair swapped near the end", n), ("adjacent pair swapped in the second half", n / 2 + n / 4)] {
+        if let Some(j) = (1..from.min(n)).rev().find(|&j| data[j] != data[j - 1]) {
+            let mut v = data.clone();
+            v.swap(j, j - 1);
+            neigh.push((what, v));
+        }
+    }
     let mut v = data.clone();
     v.push(0);
     neigh.push(("symbol 0 appended", v));
+    let qv0: QVector = data.iter().copied().collect();
     for (what, v) in neigh {
         let q2 = build_quad::<Q>(&v, rr.below(4) as u8);
         chk!(rep, "different sequence != ", (Q::NAME, what, n), Exp::Is(false), q2 == built[0]);
+        // the plain quad vector too
+        let qv2: QVector = v.iter().copied().collect();
+        chk!(rep, "different sequence != ", ("QVector", what, n), Exp::Is(false), qv2 == qv0);
     }
     // the underlying QVector: collect vs builder
     let qv: QVector = data.iter().copied().collect();
